@@ -1,7 +1,10 @@
 Require Import ZArith List. Require Extraction. Require Import ExtrOcamlBasic.
-Require Import IW.Lib.CInt IW.Gen.Facts IW.WAL.Rec IW.WAL.Scan IW.WAL.Replay IW.WAL.Proto IW.WAL.Backup.
+Require Import IW.Lib.CInt IW.Gen.Facts IW.WAL.Rec IW.WAL.Scan IW.WAL.Replay IW.WAL.Proto IW.WAL.Backup IW.WAL.Hist.
 Extraction "m.ml" Z.add Z.mul Z.sub Z.div_eucl Z.compare Z.of_nat Z.to_nat Z.opp
   encode enc_rec rec_size crc32 scan parse wf_log crc_ok crc_full sp_offsets layout_ok
   replay_ops apply_ops recover aop_sig
   run step effect_sig after_effects recovery_effects recover_open
-  mk_image split_image open_image backup_run.
+  mk_image split_image open_image backup_run backup_run_w5 set_stage checkpoint
+  size sep_fit
+  flat hist_ops evs_ops state_after hist_shape no_growth_in_ops no_copy_in_ops hist_range cfg_ok hist_ok ev_okb
+  sync_floor done_items.
